@@ -10,7 +10,9 @@ d=$1; id=$2; tier=${3:-quick}; mode=${4:-repo}
 cp /verif/evidence/$id.json /tmp/evidence-backup-$id.$$.json 2>/dev/null
 if [ "$mode" = wt ]; then
   wt=$(mktemp -d /tmp/vrf-seedwt-XXXXXX); rmdir $wt
-  git -C /repo worktree add -q --detach $wt HEAD || exit 2
+  # a seed written against an earlier commit of /repo names it as "base" in its meta.json
+  base=$(python3 -c "import json,sys;print(json.load(open('/verif/seeded/$d/meta.json')).get('base','HEAD'))" 2>/dev/null || echo HEAD)
+  git -C /repo worktree add -q --detach $wt $base || exit 2
   trap 'git -C /repo worktree remove --force $wt; git -C /repo worktree prune' EXIT
   git -C $wt apply "/verif/seeded/$d/patch.diff" || { echo "patch does not apply"; exit 2; }
   cd /verif && /verif/bin/gosym check "$id" --tier "$tier" --repo $wt > "/tmp/seedtest-$d-$id.log" 2>&1
